@@ -23,44 +23,77 @@ THEOREMS = [
 ]
 HARNESS = {"src": ["tlink.cpp"], "exclude": ["src/cpp/thread-link.cpp"], "deps": ["common.h", "tl_sched.h"]}
 STATELESS = True
-RULE = ("three streams. seq (quick 6000 / thorough 60000): random operation histories of 5..40 ops "
-        "(write/writeArray/raw_write of valid OSC messages of 8..44 bytes with all argument types, ~12% longer than "
-        "MaxMsg, read, read_lookahead, hasNext, hasNextLookahead; 1 in 40 histories also raw_writes bundles, finding "
-        "C06-K5) on rings of 16..128 bytes including sizes that are not multiples of 4 (18, 26, 30, 33, 63). "
-        "conc (quick 25000 / thorough 150000): writer history (1..5 ops) x reader history (1..8 ops) x memcpy chunk size "
-        "(whole, 1, 2, 3, 4, 5, 8 bytes) x random schedule (thread choice at every shared access, biased and bursty); "
-        "thorough additionally *every* schedule, enumerated by the model, of ~550 histories with <= 2 writer and <= 2 "
-        "reader operations behind a sequential warm-up write+read that rotates the ring (16..26-byte rings, whole memcpy "
-        "and 4-byte chunks; ~10^5 schedules), so that full, empty and wrap-around states occur under all interleavings. "
-        "soak: two free-running threads, 2*10^4 messages (quick) / 8*10^5 messages on three rings (thorough, also run in "
-        "a separate -fsanitize=thread build). non-trivial = something is written and something is read; distinct = "
-        "distinct op line")
+RULE = ("four streams. seq (quick 5500 / thorough 55000): random operation histories of 5..40 ops (write / writeArray / "
+        "raw_write of a caller-owned block / the in-place idiom rtosc_amessage(buffer(), buffer_size(), ..) + "
+        "raw_write(buffer()), of valid OSC messages of 8 bytes up to MaxMsg with all argument types, ~12% longer than "
+        "MaxMsg; read, read_lookahead, hasNext, hasNextLookahead; 1 in 40 histories also raw_writes bundles, finding "
+        "C06-K5) on rings of 16..128 bytes including sizes that are not multiples of 4 (18, 26, 30, 33, 63) and, 6%, "
+        "rings of 256..3072 bytes (64x8, 100x7, 256x5, 1024x3, 48x11, 128x2, 255x3). fill (quick 500 / thorough 5000): "
+        "directed histories that steer the number of queued bytes to a boundary - every multiple of 256 the ring can "
+        "hold, 65536 on a 71680-byte ring (1024x70; quick 1 / thorough 3 lines), the capacity, one word short of it - "
+        "after rotating the ring, and ask hasNext / hasNextLookahead / lookahead reads / one more write there. hang "
+        "(quick 1 / thorough 4): raw_write of a bundle whose element sizes lead the 32-bit position round in a circle "
+        "(finding C06-K6). conc (quick 25000 / thorough 150000): writer history (1..5 ops, all four kinds) x reader "
+        "history (1..8 ops) x memcpy chunk size (whole, 1, 2, 3, 4, 5, 8 bytes; 7, 16, 64 on the bigger rings) x random "
+        "schedule (thread choice at every shared access, biased and bursty); thorough additionally *every* schedule, "
+        "enumerated by the model, of ~550 histories with <= 2 writer and <= 2 reader operations behind a sequential "
+        "warm-up write+read that rotates the ring (16..26-byte rings, whole memcpy and 4-byte chunks; ~10^5 schedules), "
+        "so that full, empty and wrap-around states occur under all interleavings. In every line each side also "
+        "operates a second, live ThreadLink (write + read, result checked) at every ring copy and framing step of the "
+        "link under test. soak: two free-running threads (plus their decoy links), quick 2*10^4 messages on a 128-byte "
+        "ring and 4*10^3 on a 71680-byte ring, thorough 10^5..4*10^5 messages on five rings; every soak line is also run "
+        "in a separate -fsanitize=thread build, in both tiers. The memory order of every index access made inside an "
+        "operation is recorded and anything weaker than release (stores) / acquire (loads of the other side's index) "
+        "fails the line. non-trivial = something is written and something is read; distinct = distinct op line")
 ASSUMPTIONS = [
-    "one writer thread and one reader thread (the documented use); index variables are seq_cst atomics, so an "
-    "interleaving of shared accesses is a faithful execution model once data-race freedom of the plain ring bytes is "
-    "proved (C++11 DRF-SC, trusted)",
-    "everything written is an OSC *message* (IsMsg): its length is recovered by rtosc_message_ring_length from its own "
-    "bytes whatever follows it (C01: ringLength_encode); bundles sent through raw_write are outside (finding C06-K5)",
+    "one writer thread and one reader thread (the documented use); the index variables are atomics accessed with seq_cst "
+    "(as in the unchanged source; the harness fails any line on which a store of write/read is weaker than release or a "
+    "load of the other thread's index weaker than acquire), so an interleaving of shared accesses is a faithful "
+    "execution model once data-race freedom of the plain ring bytes is proved (C++11 DRF-SC, trusted)",
+    "everything written is an OSC *message*: the encoding (C01 Spec.encode) of a well-formed message whose address does "
+    "not start with '#' (IsOscMsg). For these, Framing is proved of the model of rtosc_message_ring_length "
+    "(framing_osc, from C01 ringLength_encode) and raw_write's rtosc_message_length(msg,-1) is proved to return the "
+    "same length (rawLen_msg); bundles sent through raw_write are outside (findings C06-K5, C06-K6)",
     "ring size >= 1 byte (max_messages >= 1, MaxMsg >= 1); build with NDEBUG (default build type): the asserts are no code",
-    "raw_write drops messages longer than MaxMsg (fixes/C06-rawwrite-maxmsg.patch, F6)",
+    "raw_write drops messages longer than MaxMsg (fixes/C06-rawwrite-maxmsg.patch, F6); buffer_size() is the size of "
+    "buffer() (fixes/C06-buffer-size.patch, F7)",
 ]
 TRUSTED = [
     "hand-written models RtoscModel/Ring/{Seq,Conc}.lean of ring_read_size, ring_write_size, ring_write, ring_read, "
-    "ring_read_vector, ThreadLink::{write,writeArray,raw_write,hasNext,read}; RtoscModel/Ring/Frame.lean (executable copy of "
-    "rtosc_message_ring_length, used by the driver only; the theorems take the framing function as a parameter)",
-    "harness/tl_sched.h: redefinition of std::atomic / memcpy / rtosc_message_ring_length while compiling the unmodified "
-    "thread-link.cpp into the harness; loads of a thread's own index and accesses to read_lookahead are treated as "
-    "thread-local (no scheduling point)",
-    "C++11 DRF-SC theorem; hardware memory model (supporting evidence only: TSan soak)",
+    "ring_read_vector, ThreadLink::{write,writeArray,raw_write,hasNext,read}; the framing functions are C01's/C08's "
+    "models RtoscModel/Osc/{Length,Bundle}.lean of rtosc_message_ring_length and rtosc_message_length(msg,-1) "
+    "(Ring/Frame.lean only names them); the two-thread model uses one function for both, which the driver checks to "
+    "agree on every raw_write block it runs",
+    "harness/tl_sched.h: redefinition of std::atomic / memcpy / memmove / std::copy / rtosc_message_ring_length while "
+    "compiling the unmodified thread-link.cpp into the harness; loads of a thread's own index and accesses to "
+    "read_lookahead are treated as thread-local (no scheduling point); a ring copy written as a plain byte loop is not "
+    "seen (the access trace then differs from the model's: reported as a correspondence break, the FIFO oracle still "
+    "judges the outputs); the harness reads the private ring indices to tell accepted from dropped writes and the "
+    "length of a returned message, and identifies write/read/read_lookahead by their construction order",
+    "the in-place idiom (`b` tokens) hands raw_write the write_buffer, i.e. the message followed by stale bytes; the "
+    "model runs raw_write on the message alone, which is the same for OSC messages by Framing.msg / rawLen_msg",
+    "C++11 DRF-SC theorem; hardware memory model (supporting evidence only: TSan soak in both tiers). For a tree that "
+    "uses release/acquire instead of seq_cst the interleaving model is an approximation the proofs do not cover",
 ]
 TECHNIQUE = "Lean 4 proofs over a two-thread transition system + scheduled correspondence with the real code"
-LEVEL_TEXT = ("Lean theorems: the sequential model refines a bounded FIFO with lookahead cursor for every operation history; "
-              "the two-thread model (one step per shared access, any memcpy chunking) keeps the ring invariant, is free of "
-              "data races on ring bytes, returns exactly the published messages in order and answers hasNext exactly, for "
+LEVEL_TEXT = ("Lean theorems, stated for an abstract framing function and instantiated with the model of "
+              "rtosc_message_ring_length on encoded OSC messages (framing_osc, *_osc): the sequential model refines a "
+              "bounded FIFO with lookahead cursor for every operation history (acceptance iff the message fits, dropped "
+              "whole, lookahead replays without consuming, a read resynchronises it); the two-thread model (one step per "
+              "shared access, any memcpy chunking) keeps the ring invariant, is free of data races on ring bytes, returns "
+              "exactly the published messages in order, accepts a write iff it fits at the moment the writer loads the "
+              "read index (conc_accept_exact) and publishes exactly the accepted bytes, and answers hasNext exactly, for "
               "every interleaving of every history (induction over steps, no bound). The models are compared with the "
               "compiled thread-link.cpp under a deterministic scheduler (same schedule on both sides, access traces and "
-              "outputs equal) and an independent FIFO reference is evaluated on the implementation's outputs")
-LEVEL_NOTE = "memory-model effects below seq_cst/DRF-SC are outside the model (TSan soak as supporting evidence)"
+              "outputs equal) and an independent FIFO reference, keyed on explicit operation begin/end markers, is "
+              "evaluated on the implementation's outputs")
+LEVEL_NOTE = ("memory-model effects below seq_cst/DRF-SC are outside the model (orders are checked by the harness, TSan soak "
+              "as supporting evidence). The lookahead clauses (lookahead_replays, read_resyncs_lookahead) and "
+              "hasNextLookahead are proved for the sequential model only: under concurrency the theorems cover consuming "
+              "reads, hasNext and acceptance; lookahead reads and hasNextLookahead under interleaving are covered by the "
+              "scheduled correspondence runs and the oracle only. A pure difference in the access trace with identical "
+              "results (e.g. an extra load of an index) is reported as a correspondence break "
+              "(no-failing-input-found), not as a failing input")
 
 
 # ---------------------------------------------------------------------------------------
@@ -430,7 +463,7 @@ def tsan_soak(lines, stats):
         if "WARNING: ThreadSanitizer" in p.stderr:
             verdicts.append("tsan=race")
             stats["tsan_report"] = p.stderr[:1500]
-        elif p.stdout.strip() == "soak ok" and p.returncode == 0:
+        elif p.stdout.strip().startswith("soak ok") and p.returncode == 0:
             verdicts.append("tsan=clean")
         elif p.stdout.strip().startswith("soak FAIL"):
             verdicts.append("tsan=fifo-failure")
